@@ -267,6 +267,7 @@ type lvar struct {
 	nilFlag *lvar        // a map local declared without a value (nil): the boolean local that says it has been made since
 	nilUnknown bool      // ... and it was assigned the result of a call: whether it is nil is not tracked any more
 	origin  *aliasOrigin // write-back mode: where this variable's value was taken from
+	sink    *lvar        // a json.Encoder local: the writer local it writes to
 }
 
 type extern struct {
@@ -1008,6 +1009,7 @@ var callTable = map[string]string{
 	"strings.Replace":   "go_replace",
 	"strings.Join":      "go_join",
 	"strings.Trim":      "go_trim",
+	"bytes.TrimSuffix":  "go_trim_suffix",
 	"bytes.Count":       "bytes_count",
 	"bytes.Replace":     "bytes_replace",
 	"math.IsNaN":        "flt_is_nan",
@@ -1772,6 +1774,20 @@ func (t *fnTr) assigned(list []ast.Stmt) []*lvar {
 					add(t.lvarOf(x.Lhs[0]))
 				}
 				if len(x.Rhs) == 1 {
+					if c, ok := x.Rhs[0].(*ast.CallExpr); ok {
+						if se, ok := c.Fun.(*ast.SelectorExpr); ok && se.Sel.Name == "Encode" && len(c.Args) == 1 {
+							if el := t.lvarOf(se.X); el != nil && el.kind == "jencoder" {
+								add(el.sink)
+							}
+						}
+						if pk, nm, isPkg := t.pkgCall(c); isPkg && pk == "encoding/json" && nm == "Indent" && len(c.Args) == 4 {
+							if u, ok := unparen(c.Args[0]).(*ast.UnaryExpr); ok && u.Op == token.AND {
+								add(t.lvarOf(u.X))
+							}
+						}
+					}
+				}
+				if len(x.Rhs) == 1 {
 					if c, ok := x.Rhs[0].(*ast.CallExpr); ok && len(c.Args) == 1 {
 						if se, ok := c.Fun.(*ast.SelectorExpr); ok && se.Sel.Name == "Decode" {
 							if u, ok := c.Args[0].(*ast.UnaryExpr); ok && u.Op == token.AND {
@@ -1854,6 +1870,13 @@ func (t *fnTr) assigned(list []ast.Stmt) []*lvar {
 				}
 			case *ast.ExprStmt:
 				if c, ok := x.X.(*ast.CallExpr); ok {
+					if se, isSel := c.Fun.(*ast.SelectorExpr); isSel && se.Sel.Name == "SetEscapeHTML" {
+						if id, isId := se.X.(*ast.Ident); isId {
+							if el, okL := t.locals[t.p.info.Uses[id]]; okL && el.kind == "jencoder" {
+								add(el.fields["escapeHTML"])
+							}
+						}
+					}
 					if se, isSel := c.Fun.(*ast.SelectorExpr); isSel && se.Sel.Name == "UseNumber" {
 						if id, isId := se.X.(*ast.Ident); isId {
 							if dl, okL := t.locals[t.p.info.Uses[id]]; okL && dl.kind == "jdecoder" {
@@ -2760,6 +2783,15 @@ func (t *fnTr) stmts(list []ast.Stmt, end func() string) string {
 					return t.wrap(mark, "let "+ml.name+" := del "+k+" "+ml.name+" in "+wbs+"\n  "+next())
 				}
 			}
+			if se, isSel := c.Fun.(*ast.SelectorExpr); isSel && se.Sel.Name == "SetEscapeHTML" && len(c.Args) == 1 {
+				if id, isId := se.X.(*ast.Ident); isId {
+					if el, okL := t.locals[t.p.info.Uses[id]]; okL && el.kind == "jencoder" {
+						mark := len(t.guards)
+						v := t.expr(c.Args[0])
+						return t.wrap(mark, "let "+el.fields["escapeHTML"].name+" := "+v+" in\n  "+next())
+					}
+				}
+			}
 			if se, isSel := c.Fun.(*ast.SelectorExpr); isSel && se.Sel.Name == "UseNumber" && len(c.Args) == 0 {
 				if id, isId := se.X.(*ast.Ident); isId {
 					if dl, okL := t.locals[t.p.info.Uses[id]]; okL && dl.kind == "jdecoder" {
@@ -3355,6 +3387,110 @@ func (t *fnTr) assign(x *ast.AssignStmt, next func() string) string {
 						}
 					}
 				}
+			}
+		}
+		// enc := json.NewEncoder(&buf) on a writer local: the encoder is the writer it appends to and its escapeHTML flag (true
+		// until SetEscapeHTML); what Encode writes is the environment function ext_json_Encode
+		if define {
+			if c, ok := x.Rhs[0].(*ast.CallExpr); ok && len(c.Args) == 1 {
+				if pk, nm, isPkg := t.pkgCall(c); isPkg && pk == "encoding/json" && nm == "NewEncoder" {
+					var wl *lvar
+					if u, ok := unparen(c.Args[0]).(*ast.UnaryExpr); ok && u.Op == token.AND {
+						wl = t.lvarOf(u.X)
+					} else {
+						wl = t.lvarOf(c.Args[0])
+					}
+					if wl == nil || wl.kind != "writer" {
+						t.unsupported(x, "json.NewEncoder on something other than a writer local")
+					}
+					nUse, nOk := 0, 0
+					ast.Inspect(t.fn.Body, func(n ast.Node) bool {
+						if id, ok := n.(*ast.Ident); ok && t.p.info.Uses[id] == obj {
+							nUse++
+						}
+						if ce, ok := n.(*ast.CallExpr); ok && len(ce.Args) == 1 {
+							if se, ok := ce.Fun.(*ast.SelectorExpr); ok && (se.Sel.Name == "Encode" || se.Sel.Name == "SetEscapeHTML") {
+								if id, ok := se.X.(*ast.Ident); ok && t.p.info.Uses[id] == obj {
+									nOk++
+								}
+							}
+						}
+						return true
+					})
+					if nUse != nOk {
+						t.unsupported(x, "a json.Encoder used other than by Encode / SetEscapeHTML")
+					}
+					lv := &lvar{name: "l_" + l.Name, kind: "jencoder", fields: map[string]*lvar{}, sink: wl}
+					t.locals[obj] = lv
+					fe := t.newLocal(nil, l.Name+"_escapeHTML", "bool")
+					lv.fields["escapeHTML"] = fe
+					lv.forder = []string{"escapeHTML"}
+					return "let " + fe.name + " : bool := true in\n  " + next()
+				}
+			}
+		}
+		// err := enc.Encode(v) on such an encoder: the bytes are appended to its writer; nothing is written when it fails
+		if c, ok := x.Rhs[0].(*ast.CallExpr); ok && len(c.Args) == 1 {
+			if se, ok := c.Fun.(*ast.SelectorExpr); ok && se.Sel.Name == "Encode" {
+				if id, ok := se.X.(*ast.Ident); ok {
+					if el, ok := t.locals[t.p.info.Uses[id]]; ok && el.kind == "jencoder" {
+						var en string
+						if define {
+							en = t.newLocal(obj, l.Name, "errv").name
+						} else if erl, ok := t.locals[obj]; ok && erl.kind == "errv" {
+							en = erl.name
+						} else {
+							t.unsupported(x, "Encode result assigned to something other than an error variable")
+						}
+						mark := len(t.guards)
+						v := t.boxVal(c.Args[0])
+						name := "ext_json_Encode"
+						found := false
+						for _, e := range *t.externs {
+							found = found || e.name == name
+						}
+						if !found {
+							*t.externs = append(*t.externs, extern{name, "value -> bool -> (res str)"})
+						}
+						w := el.sink.name
+						return t.wrap(mark, "match ("+name+" "+v+" "+el.fields["escapeHTML"].name+") with Panic => Crash | rr_ => let '("+w+", "+en+") := match rr_ with Ok w_ => (app "+w+" w_, None) | Err e_ => ("+w+", Some e_) | Panic => ("+w+", None) end in\n  "+next()+" end")
+					}
+				}
+			}
+		}
+		// err = json.Indent(&buf, src, prefix, indent): what it appends to the writer local is the environment function
+		// ext_json_Indent; nothing is appended when it fails (appendIndent hands back the buffer as it was)
+		if c, ok := x.Rhs[0].(*ast.CallExpr); ok && len(c.Args) == 4 {
+			if pk, nm, isPkg := t.pkgCall(c); isPkg && pk == "encoding/json" && nm == "Indent" {
+				var wl *lvar
+				if u, ok := unparen(c.Args[0]).(*ast.UnaryExpr); ok && u.Op == token.AND {
+					wl = t.lvarOf(u.X)
+				} else {
+					wl = t.lvarOf(c.Args[0])
+				}
+				if wl == nil || wl.kind != "writer" {
+					t.unsupported(x, "json.Indent into something other than a writer local")
+				}
+				var en string
+				if define {
+					en = t.newLocal(obj, l.Name, "errv").name
+				} else if erl, ok := t.locals[obj]; ok && erl.kind == "errv" {
+					en = erl.name
+				} else {
+					t.unsupported(x, "json.Indent result assigned to something other than an error variable")
+				}
+				mark := len(t.guards)
+				a1, a2, a3 := t.expr(c.Args[1]), t.expr(c.Args[2]), t.expr(c.Args[3])
+				name := "ext_json_Indent"
+				found := false
+				for _, e := range *t.externs {
+					found = found || e.name == name
+				}
+				if !found {
+					*t.externs = append(*t.externs, extern{name, "str -> str -> str -> (res str)"})
+				}
+				w := wl.name
+				return t.wrap(mark, "match ("+name+" "+a1+" "+a2+" "+a3+") with Panic => Crash | rr_ => let '("+w+", "+en+") := match rr_ with Ok w_ => (app "+w+" w_, None) | Err e_ => ("+w+", Some e_) | Panic => ("+w+", None) end in\n  "+next()+" end")
 			}
 		}
 		// err := dec.Decode(&v) on such a decoder
@@ -4759,7 +4895,7 @@ func constTable(p *pkgInfo, vs *ast.ValueSpec, i int) (string, bool) {
 
 // the functions translated into Pure_gen.v ("Recv.Method" for methods)
 var pureFuncs = []string{"cast", "escapeChars", "parsePath", "getSubKeyMap", "hasSubKeys", "Map.PathForKeyShortest", "valuesForKeyPath", "hasKey", "hasKeyPath", "getLeafNodes",
-	"Map.ValuesForKey", "Map.oldValuesForPath", "Map.ValuesForPath", "Map.LeafNodes", "getJson", "NewMapJsonReader", "NewMapJsonReaderRaw", "Map.Exists", "Map.ValueForPath", "Map.ValueForKey", "Map.LeafPaths", "Map.LeafValues", "valuesForArray", "Map.PathsForKey", "byteReader.ReadByte", "teeReader.ReadByte", "Maps.JsonString", "Maps.JsonStringIndent", "Maps.XmlString", "Maps.XmlStringIndent", "BeautifyXml", "Map.Copy", "Map.Json", "Map.Root", "NewMapXml", "NewMapXmlSeq", "lastKey", "xmlToMapParser", "xmlSeqToMapParser", "Map.JsonWriter", "Map.JsonWriterRaw", "Map.JsonIndentWriter", "Map.JsonIndentWriterRaw", "Map.XmlWriter", "Map.XmlIndentWriter", "MapSeq.XmlWriter", "MapSeq.XmlIndentWriter", "mapToXmlSeqIndent", "pretty.Indent", "pretty.Outdent", "elemListSeq.Less", "marshalMapToXmlIndent", "attrList.Less", "elemList.Less", "NewMapJson", "updateValueForKey", "updateValue", "updateValuesForKeyPath", "Map.UpdateValuesForPath", "prevValueByPath", "remove", "renameKey", "Map.Remove", "Map.RenameKey", "parentPath", "Map.SetValueForPath", "Map.Xml", "Map.XmlIndent", "MapSeq.Xml", "MapSeq.XmlIndent", "AnyXml", "AnyXmlIndent"}
+	"Map.ValuesForKey", "Map.oldValuesForPath", "Map.ValuesForPath", "Map.LeafNodes", "getJson", "NewMapJsonReader", "NewMapJsonReaderRaw", "Map.Exists", "Map.ValueForPath", "Map.ValueForKey", "Map.LeafPaths", "Map.LeafValues", "valuesForArray", "Map.PathsForKey", "byteReader.ReadByte", "teeReader.ReadByte", "Maps.JsonString", "Maps.JsonStringIndent", "Maps.XmlString", "Maps.XmlStringIndent", "BeautifyXml", "Map.Copy", "Map.Json", "Map.Root", "NewMapXml", "NewMapXmlSeq", "lastKey", "xmlToMapParser", "xmlSeqToMapParser", "Map.JsonWriter", "Map.JsonWriterRaw", "Map.JsonIndentWriter", "Map.JsonIndentWriterRaw", "Map.XmlWriter", "Map.XmlIndentWriter", "MapSeq.XmlWriter", "MapSeq.XmlIndentWriter", "mapToXmlSeqIndent", "pretty.Indent", "pretty.Outdent", "elemListSeq.Less", "marshalMapToXmlIndent", "attrList.Less", "elemList.Less", "NewMapJson", "updateValueForKey", "updateValue", "updateValuesForKeyPath", "Map.UpdateValuesForPath", "prevValueByPath", "remove", "renameKey", "Map.Remove", "Map.RenameKey", "parentPath", "Map.SetValueForPath", "Map.Xml", "Map.XmlIndent", "MapSeq.Xml", "MapSeq.XmlIndent", "AnyXml", "AnyXmlIndent", "marshalJSON", "Map.JsonIndent"}
 
 // joinMode: functions translated in join mode (see branching): the statements after an if / switch are translated
 // once instead of into every branch.  The continuation-passing translation of the other functions is kept as it is
